@@ -1,0 +1,65 @@
+//go:build verif
+
+package store
+
+import (
+	"sort"
+
+	"github.com/celestiaorg/go-header"
+)
+
+// This file is only compiled with the `verif` build tag. It exposes read-only views of
+// internal state (and one test knob) to the external model-checking harness.
+
+// VerifPendingHeights returns the heights currently held in the pending write batch.
+func (s *Store[H]) VerifPendingHeights() []uint64 {
+	s.pending.lk.RLock()
+	defer s.pending.lk.RUnlock()
+	out := make([]uint64, 0, len(s.pending.headers))
+	for h := range s.pending.headers {
+		out = append(out, h)
+	}
+	sort.Slice(out, func(i, j int) bool { return out[i] < out[j] })
+	return out
+}
+
+// VerifCacheKeys returns the keys of the header cache in the cache's own order.
+func (s *Store[H]) VerifCacheKeys() []string { return s.cache.Keys() }
+
+// VerifIndexCacheKeys returns the keys of the height index cache in the cache's own order.
+func (s *Store[H]) VerifIndexCacheKeys() []uint64 { return s.heightIndex.cache.Keys() }
+
+// VerifWaiters returns the heights that have registered waiters and their counts.
+func (s *Store[H]) VerifWaiters() map[uint64]int {
+	s.heightSub.heightSubsLk.Lock()
+	defer s.heightSub.heightSubsLk.Unlock()
+	out := make(map[uint64]int, len(s.heightSub.heightSubs))
+	for h, sub := range s.heightSub.heightSubs {
+		out[h] = sub.count
+	}
+	return out
+}
+
+// VerifPointers returns the in-memory head and tail heights (0 when unset).
+func (s *Store[H]) VerifPointers() (head, tail uint64) {
+	if p := s.contiguousHead.Load(); p != nil {
+		head = (*p).Height()
+	}
+	if p := s.tailHeader.Load(); p != nil {
+		tail = (*p).Height()
+	}
+	return head, tail
+}
+
+// VerifSetDeleteRangeParallelThreshold overrides the parallel deletion threshold and
+// returns the previous value.
+func VerifSetDeleteRangeParallelThreshold(n uint64) uint64 {
+	old := deleteRangeParallelThreshold
+	deleteRangeParallelThreshold = n
+	return old
+}
+
+// VerifKeys returns the datastore keys (without namespace prefix) used for a header.
+func VerifKeys[H header.Header[H]](h H) (hashK, heightK, headK, tailK string) {
+	return headerKey(h).String(), heightKey(h.Height()).String(), headKey.String(), tailKey.String()
+}
